@@ -495,6 +495,15 @@ func (w *worker) runJob(job *Job) (tr *Trace) {
 		}
 	}()
 
+	if job.Sched != nil {
+		os.Setenv("INPUTRC", w.rcFile(cfg.RC))
+		os.Setenv("VISUAL", "")
+		os.Setenv("EDITOR", "")
+		tr.Sched = runSched(job.Sched, w.master)
+		// leave the tty in its baseline mode whatever the execution did
+		unix.IoctlSetInt(w.slave, unix.TCFLSH, unix.TCIFLUSH)
+		return tr
+	}
 	// Terminal: size, termios, input queue, emulator.
 	ws := &unix.Winsize{Row: uint16(cfg.H), Col: uint16(cfg.W)}
 	if err := unix.IoctlSetWinsize(w.master, unix.TIOCSWINSZ, ws); err != nil {
